@@ -168,9 +168,12 @@ def deregisterAllFrom (s : St) : List Nat → St
 
 def deregisterAll (s : St) : St := deregisterAllFrom s (List.range s.nLst)
 
+/-- the `Resume` arm: `info.timeout = None; self.register_logged(info)` for every socket -/
 def registerAllFrom (s : St) : List Nat → St
   | [] => s
-  | l :: ls => registerAllFrom (register s l) ls
+  | l :: ls =>
+    let s1 := { s with lst := upd s.lst l { s.lst l with deadline := none } }
+    registerAllFrom (register s1 l) ls
 
 /-! ### environment actions -/
 
@@ -331,7 +334,8 @@ def acceptOne (cfg : Cfg) : Nat → St → Conn → St
         if !anyAvail cfg s1 then forcedSend cfg (s1.handles.length + 1) s1 c
         else acceptOne cfg fuel s1 c
 
-def acceptOneFuel (s : St) : Nat := 2 * s.handles.length + 2
+/-- enough for the worst case: between two removals of dead handles the scan passes every remaining handle at most once -/
+def acceptOneFuel (s : St) : Nat := (s.handles.length + 1) * (s.handles.length + 1) + 1
 
 /-- `info.lst.accept()` -/
 inductive AccRes where
